@@ -62,7 +62,7 @@ prop("C20",
      runs=[dict(test="^TestC20$", quick=dict(checks=3000), thorough=dict(checks=30000, shards=16, timeout=3000))])
 
 prop("C05",
-     level_text="generated-input search (rapid): input type x JSON-like value (conformant, or with exactly one of the named non-conformances injected at a drawn depth) x placement (variable, inline literal, variable default, argument default); oracle = independent input-coercion model + resolver-invocation counter + literal/variable metamorphic relation + literal-validity/variable-coercibility agreement",
+     level_text="generated-input search (rapid): input type x JSON-like value (conformant, or with exactly one of the named non-conformances injected at a drawn depth) x placement (variable, inline literal, variable nested inside a literal, variable default, argument default; bare values for list types); oracle = independent input-coercion model + resolver-invocation counter + literal/variable metamorphic relation + literal-validity/variable-coercibility agreement",
      note="values on which the port is knowingly lenient and the property is silent (numeric strings / booleans for Int and Float, fractional floats for Int, non-strings for String/Boolean) are never generated (DESIGN §3.3)",
      technique="property-based testing (rapid): reference model of input coercion + metamorphic relation",
      rule="schema from the C01 generator plus a probe field probe(x: T [= default]): String whose resolver records Args; T drawn over scalars, custom scalars, enums (int / string / name internals), nested input objects, wrappers to depth 3. Non-trivial = value nesting depth >= 2 or an argument default participates; distinct by hash of (schema, type, value).",
@@ -164,7 +164,7 @@ prop("C17",
      runs=[dict(test="^TestC17$", quick=dict(checks=6000), thorough=dict(checks=60000, shards=16, timeout=3000))])
 
 prop("C10",
-     level_text="generated-input search (rapid): schema model (wrappers to depth 4, defaults of every input kind incl. enums with non-name internals, lists, nested input objects, custom scalars; descriptions; deprecations; custom directives; thunked interfaces / members; unreferenced implementers) built directly or by NewSchema + AppendType in a drawn order; the full introspection result is decoded and compared with the generating model, every defaultValue is parsed by the reference parser and coerced by the reference coercion and must give back the configured default; __type(name:) per type with includeDeprecated off",
+     level_text="generated-input search (rapid): schema model (wrappers to depth 4, defaults of every input kind incl. enums with non-name internals, lists, nested input objects, custom scalars; descriptions; deprecations; custom directives; thunked interfaces / members; unreferenced implementers and an unreferenced union of them) built directly or by NewSchema + AppendType in a drawn order, where members of an appended union are appended before it, after it, or arrive only through it; the full introspection result is decoded and compared with the generating model, every defaultValue is parsed by the reference parser and coerced by the reference coercion and must give back the configured default; __type(name:) per type with includeDeprecated off",
      note="configured defaults are generated in coerced form (input-object defaults carry their fields' own defaults, no null inside lists: this edition has no null literal); __typename = runtime type is covered by C01/C04",
      technique="property-based testing (rapid): model round trip through introspection + parse/coerce round trip of defaults",
      rule="Non-trivial = a default of list / input-object / enum kind, an interface with >= 2 implementers, or a schema extended by AppendType; distinct by case hash.",
@@ -188,7 +188,7 @@ prop("C06",
            dict(test="^TestC06_Gen$", quick=dict(checks=1500), thorough=dict(checks=15000, shards=16, timeout=3000))])
 
 prop("C19",
-     level_text="scaling search over document families (nesting depth through an abstract field x number of implementers, fragment chains, one fragment spread at n sites, dense fragment DAGs, fragments spreading each other twice per level through fields, n repetitions of a response key with sub-selections, input literals n deep / n wide, n mutually exclusive inline fragments, n aliases): work is read from step counters at the field-collection and field-pair-comparison sites (verif build tag) after ValidateDocument, PlanQuery and ExecutePlan; oracle = doubling ratio <= 12 on the ladder 4..64 (128 in thorough), a cubic envelope fixed at the smallest size, plan-time work identical for 2 / 8 / 32 / 128 implementers, and at most one planned runtime type per abstract value encountered at execution",
+     level_text="scaling search over document families (nesting depth through an abstract field x number of implementers, fragment chains, one fragment spread at n sites, dense fragment DAGs, fragments spreading each other twice per level through fields, n repetitions of a response key with sub-selections, input literals n deep / n wide, n mutually exclusive inline fragments, n aliases): work is read from step counters at the field-collection and field-pair-comparison sites (verif build tag) after ValidateDocument, PlanQuery and ExecutePlan; composed recipe families (1-3 root contexts under no / different concrete type conditions, directly or under one response key, x which later fragments each fragment spreads: next, next two, all later, next and n/2 ahead, every third x how: directly, through a field, through an aliased field, alternating) measured at n = 8, 12, 18, 27 (40) with consecutive-size ratio <= 12 (degree 5 gives 7.6); oracle for the fixed families = doubling ratio <= 12 on the ladder 4..64 (128 in thorough), a cubic envelope fixed at the smallest size, plan-time work identical for 2 / 8 / 32 / 128 implementers, and at most one planned runtime type per abstract value encountered at execution",
      note="no wall-clock oracle; the counters are the only source hook (commit listed under hooks.source_commits); exponential blow-ups pass ratio 12 by n=16 in every family probed",
      technique="property-based testing (rapid-drawn sizes) + fixed scaling ladders, metamorphic / growth-rate oracle on instrumented step counts",
      rule="ladder: every family x sizes 4,8,16,32,64 (dense DAG families to 32); implementers: depth family at n in {4,16,48} x m in {2,8,32,128}; rapid: family x n in [5,64] x m in {2,4,16,64} against the cubic envelope. Every case with n >= 8 is non-trivial; distinct by (family, n, m).",
@@ -202,14 +202,15 @@ prop("C07",
      runs=[dict(test="^TestC07$", race=True, quick=dict(checks=150), thorough=dict(checks=1500, shards=8, timeout=3000))])
 
 prop("C16",
-     level_text="schedule search with harness-owned gates (rapid): documents with 1-6 gated resolver invocations (nested, in lists), a context the harness ends itself (cancel or deadline as a logical event; also stock context.WithCancel / an already expired WithDeadline), cancellation point drawn from {before the call, while resolver k is blocked for every k, after the last resolver, never, racing the last gate}, resolvers that ignore or observe the context, entries Do and PlanQuery+ExecutePlan; oracle = while a resolver is still blocked the call returns with no data and exactly the context's error; without cancellation the complete response; in racing schedules one of the two and nothing else; afterwards no library goroutine survives",
+     level_text="schedule search with harness-owned gates (rapid): documents with 1-6 gated resolver invocations (nested, in lists), gates also inside ParseValue of a custom scalar during variable coercion (variables of type Gate, [Gate], input object with a Gate field; cancellation while the k-th coercion call is blocked); a context the harness ends itself (cancel or deadline as a logical event; also stock context.WithCancel / an already expired WithDeadline), cancellation point drawn from {before the call, while resolver k is blocked for every k, after the last resolver, never, racing the last gate}, resolvers that ignore or observe the context, entries Do and PlanQuery+ExecutePlan; oracle = while a resolver is still blocked the call returns with no data and exactly the context's error; without cancellation the complete response; in racing schedules one of the two and nothing else; afterwards no library goroutine survives",
      note="'promptly' = returns while the gate of the blocked resolver is still closed (watchdog 20 s >> microseconds); interleavings inside the library between its two goroutines are sampled, not enumerated; built with -race",
      technique="property-based testing (rapid) over harness-controlled schedules (logical gates instead of sleeps)",
      rule="Non-trivial = cancellation at an interior resolver (0 < k < n) or racing completion; distinct by case hash.",
-     runs=[dict(test="^TestC16$", race=True, quick=dict(checks=400), thorough=dict(checks=4000, shards=16, timeout=3000))])
+     runs=[dict(test="^TestC16$", race=True, quick=dict(checks=400), thorough=dict(checks=4000, shards=16, timeout=3000)),
+           dict(test="^TestC16_Coercion$", race=True, quick=dict(checks=300), thorough=dict(checks=3000, shards=16, timeout=3000))])
 
 prop("C15",
-     level_text="history search (rapid) with the harness as producer and consumer: the subscription source is an unbuffered channel, so emit / read / cancel / closeSource happen exactly in the drawn order; payloads make field resolution succeed, fail, or fail in a non-null position; sources that are a stream, a single value, nil, an error, a panic with an error or with a string; requests that fail to parse or validate; consumers that keep or stop reading after cancellation. Oracle = the i-th result equals the harness's own execution of the selection for the i-th event (data JSON and error count), one per event and in order; the channel closes after the source closes or the context is cancelled; failing requests deliver exactly one error result and close; afterwards no goroutine with an ExecuteSubscription frame survives",
+     level_text="history search (rapid) with the harness as producer and consumer: the subscription source is an unbuffered channel, so emit / read / cancel / closeSource happen exactly in the drawn order; payloads make field resolution succeed, fail, or fail in a non-null position, or are nil; sources that are a stream, a single value, nil, an error, a panic with an error or with a string; requests that fail to parse or validate; consumers that keep or stop reading after cancellation. Oracle = the i-th result equals the harness's own execution of the selection for the i-th event (data JSON and error count), one per event and in order; the channel closes after the source closes or the context is cancelled; failing requests deliver exactly one error result and close; afterwards no goroutine with an ExecuteSubscription frame survives",
      note="an emit is only attempted when the library is idle (otherwise the producer itself would block), so stalls are modelled as 'result pending, consumer not reading'; after cancellation a result may be the correct next one or carry only the context error; multi-root subscriptions are not generated (the edition has no single-root rule and the port picks a root by map order); built with -race",
      technique="property-based testing (rapid): model-based history generation with harness-owned hand-offs and a goroutine census",
      rule="Non-trivial = an event whose execution fails, or a cancellation while a result is pending; distinct by case hash.",
